@@ -38,6 +38,14 @@ impl VIn {
         mk_vertex::<D>(self.uuid, &self.m, s, self.off, self.data)
     }
     pub fn args(&self, tr: &mut Tracer) -> Value {
+        // coordinates beyond the exact-arithmetic range of the specification (|m| >= 1e9 lattice units) are
+        // logged like coord_proj logs them (0, and the stored vertex is `pert /\ ~dok`: geometry undecided);
+        // the true values travel in `mw` for re-execution
+        if self.m.iter().any(|x| x.abs() >= 1_000_000_000) {
+            let cl: Vec<i64> = self.m.iter().map(|&x| if x.abs() >= 1_000_000_000 { 0 } else { x }).collect();
+            let mw: Vec<String> = self.m.iter().map(|x| x.to_string()).collect();
+            return json!({"u": tr.vid(self.uuid), "m": cl, "data": self.data.map_or(-1, i64::from), "cls": "probe", "mw": mw.join(",")});
+        }
         json!({"u": tr.vid(self.uuid), "m": self.m, "data": self.data.map_or(-1, i64::from), "cls": self.cls})
     }
 }
